@@ -1815,4 +1815,103 @@ example :
 
 end filePerm
 
+/-! ### the spectral angle is well-defined in exact arithmetic (Cauchy–Schwarz) -/
+
+section cauchy
+variable {K : Type} [Field K] [LinearOrder K] [IsStrictOrderedRing K]
+
+/-- Cauchy–Schwarz for three isotopes -/
+theorem cs3 (a1 a2 a3 b1 b2 b3 : K) :
+    (a1 * b1 + a2 * b2 + a3 * b3) ^ 2 ≤ (a1 * a1 + a2 * a2 + a3 * a3) * (b1 * b1 + b2 * b2 + b3 * b3) := by
+  nlinarith [sq_nonneg (a1 * b2 - a2 * b1), sq_nonneg (a1 * b3 - a3 * b1), sq_nonneg (a2 * b3 - a3 * b2)]
+
+/-- what `spectral_angle_defined` needs to know about `sqrt`: it is the non-negative square root on non-negative arguments
+    (satisfiable in the reals / any real closed field; ℚ has no such function, the ℚ example is at `similarity_bounds`) -/
+def SqrtOk (sqrt : K → K) : Prop := ∀ x, 0 ≤ x → 0 ≤ sqrt x ∧ sqrt x * sqrt x = x
+
+/-- **C19.similarity_bounds** — if `s` and `t` are the (non-negative) square roots of `ss = Σ cᵢ²` and `Σ dᵢ²`, the
+    quantity `summarize_traces` hands to `acos`, `dot / (s * t)` with `dot = Σ cᵢ·dᵢ`, lies in `[-1, 1]` for EVERY observed
+    envelope `c` and theoretical distribution `d`: the normalised spectral angle is always defined, and a NaN angle in
+    the `f64` code can only come from rounding (the quotient landing an ulp above 1). -/
+theorem similarity_bounds (c1 c2 c3 d1 d2 d3 s t : K)
+    (hss : 0 < c1 * c1 + c2 * c2 + c3 * c3)
+    (hs0 : 0 ≤ s) (hs2 : s * s = c1 * c1 + c2 * c2 + c3 * c3)
+    (ht0 : 0 ≤ t) (ht2 : t * t = d1 * d1 + d2 * d2 + d3 * d3) :
+    -1 ≤ (c1 * d1 + c2 * d2 + c3 * d3) / (s * t) ∧ (c1 * d1 + c2 * d2 + c3 * d3) / (s * t) ≤ 1 := by
+  set dot := c1 * d1 + c2 * d2 + c3 * d3
+  have hspos : 0 < s := by
+    rcases hs0.lt_or_eq with h | h
+    · exact h
+    · rw [← h] at hs2; simp at hs2; linarith
+  rcases ht0.lt_or_eq with htpos | ht
+  · have hden : 0 < s * t := mul_pos hspos htpos
+    have hsq : dot ^ 2 ≤ (s * t) ^ 2 := by
+      have := cs3 c1 c2 c3 d1 d2 d3
+      calc dot ^ 2 ≤ (c1 * c1 + c2 * c2 + c3 * c3) * (d1 * d1 + d2 * d2 + d3 * d3) := this
+        _ = (s * s) * (t * t) := by rw [hs2, ht2]
+        _ = (s * t) ^ 2 := by ring
+    obtain ⟨h1, h2⟩ := abs_le_of_sq_le_sq' hsq hden.le
+    constructor
+    · rw [le_div_iff₀ hden]; linarith
+    · rw [div_le_one hden]; exact h2
+  · rw [← ht]; simp
+
+/-- non-vacuity over ℚ: an observed envelope that is exactly twice the theoretical one has similarity exactly 1 (the
+    cliff of the float code), a distorted one is strictly inside -/
+example : ((2 : Rat) * 1 + 4 * 2 + 4 * 2) / (6 * 3) = 1 ∧
+    (-1 ≤ ((2 : Rat) * 1 + 4 * 2 + 4 * 2) / (6 * 3) ∧ ((2 : Rat) * 1 + 4 * 2 + 4 * 2) / (6 * 3) ≤ 1) ∧
+    ((4 : Rat) * 1 + 4 * 2 + 2 * 2) / (6 * 3) < 1 :=
+  ⟨by norm_num, similarity_bounds 2 4 4 1 2 2 6 3 (by norm_num) (by norm_num) (by norm_num) (by norm_num) (by norm_num),
+   by norm_num⟩
+
+/-- the same quotient as the model computes it, column by column: `simOf` is the argument of `acos` in `summarize` -/
+def simOf {α : Type} (e : FEnv K) (g : Grid α K) (dist : List K) (ssDist : K) (file col : Nat) : K :=
+  let conv := (List.range nIso).map fun iso => convolve e (rowOf g.cells g.cols (file * nIso + iso)) (gaussKernel e e.half kWidth)
+  let dot := (List.range nIso).foldl (fun acc iso => acc + ((conv.getD iso []).getD col e.zero) * dist.getD iso e.zero) e.zero
+  let ss := (List.range nIso).foldl (fun acc iso => let x := (conv.getD iso []).getD col e.zero; acc + x * x) e.zero
+  if e.zero < ss then (let q := dot / (e.sqrt ss * ssDist); if e.one < q then e.one else q) else e.zero
+
+omit [IsStrictOrderedRing K] in
+/-- `simOf` really is what `summarize` feeds to `acos` -/
+theorem summarize_angle_eq {α : Type} (e : FEnv K) (g : Grid α K) (dist : List K) (ssDist : K) :
+    (summarize e g dist ssDist).angle = (List.range g.files).map fun file =>
+      (List.range g.cols).map fun col => e.one - e.two * e.acos (simOf e g dist ssDist file col) / e.pi := by
+  unfold summarize simOf
+  simp only [List.map_map, List.zipWith_map_left, List.zipWith_map_right, List.zipWith_self]
+  rfl
+
+/-- **C19.spectral_angle_defined** — in exact arithmetic (exact `sqrt`, `ss_dist = sqrt(Σ dᵢ²)` as the code computes it),
+    every argument `summarize_traces` passes to `acos` lies in `[-1, 1]`, for every grid, file and column. -/
+theorem spectral_angle_defined {α : Type} (e : FEnv K) (he : e.zero = 0) (he1 : e.one = 1) (hs : SqrtOk e.sqrt) (g : Grid α K)
+    (d1 d2 d3 : K) (file col : Nat) :
+    -1 ≤ simOf e g [d1, d2, d3] (e.sqrt (d1 * d1 + d2 * d2 + d3 * d3)) file col ∧
+    simOf e g [d1, d2, d3] (e.sqrt (d1 * d1 + d2 * d2 + d3 * d3)) file col ≤ 1 := by
+  unfold simOf
+  have h3 : List.range nIso = [0, 1, 2] := by decide
+  simp only [h3, List.map_cons, List.map_nil, List.foldl_cons, List.foldl_nil, he, he1, zero_add]
+  simp only [List.getD_cons_zero, List.getD_cons_succ]
+  split
+  · rename_i hpos
+    have hsd : 0 ≤ d1 * d1 + d2 * d2 + d3 * d3 := by nlinarith [mul_self_nonneg d1, mul_self_nonneg d2, mul_self_nonneg d3]
+    obtain ⟨a0, a2⟩ := hs _ hpos.le
+    obtain ⟨b0, b2⟩ := hs _ hsd
+    obtain ⟨l, u⟩ := similarity_bounds _ _ _ d1 d2 d3 _ _ hpos a0 a2 b0 b2
+    split
+    · constructor <;> norm_num
+    · exact ⟨l, u⟩
+  · constructor <;> norm_num
+
+/-- **C19.similarity_clamp_inactive** — in exact arithmetic the `min(1.0)` of the repaired code never fires: the unclamped
+    quotient is already `≤ 1`, so the clamp only ever corrects rounding (the acos cliff of the float code). -/
+theorem similarity_clamp_inactive (c1 c2 c3 d1 d2 d3 s t : K)
+    (hss : 0 < c1 * c1 + c2 * c2 + c3 * c3)
+    (hs0 : 0 ≤ s) (hs2 : s * s = c1 * c1 + c2 * c2 + c3 * c3)
+    (ht0 : 0 ≤ t) (ht2 : t * t = d1 * d1 + d2 * d2 + d3 * d3) :
+    (if (1 : K) < (c1 * d1 + c2 * d2 + c3 * d3) / (s * t) then 1 else (c1 * d1 + c2 * d2 + c3 * d3) / (s * t)) =
+      (c1 * d1 + c2 * d2 + c3 * d3) / (s * t) := by
+  have := (similarity_bounds c1 c2 c3 d1 d2 d3 s t hss hs0 hs2 ht0 ht2).2
+  rw [if_neg (not_lt.mpr this)]
+
+end cauchy
+
 end Sage.C19
